@@ -287,3 +287,158 @@ Proof.
   destruct (merge_rows_plain rows g1 0 HP) as (_ & R2 & _ & K2).
   destruct (K2 C1) as (N2 & X2 & Q2). repeat split; assumption.
 Qed.
+
+(* ---------- MERGE with ON CREATE / ON MATCH items on keys disjoint from the pattern keys ---------- *)
+Definition keys_of (l : list (N * oval)) : list N := map fst l.
+Definition mrow := (list N * list (N * oval) * list (N * oval) * list (N * oval))%type.
+Definition r_ls (r : mrow) := fst (fst (fst r)).
+Definition r_ps (r : mrow) := snd (fst (fst r)).
+Definition r_oc (r : mrow) := snd (fst r).
+Definition r_om (r : mrow) := snd r.
+(* the ON items of every row leave the pattern keys of every row of the statement alone *)
+Definition on_items_disjoint (rows : list mrow) : Prop :=
+  forall r r', In r rows -> In r' rows ->
+    forall k, In k (keys_of (r_oc r) ++ keys_of (r_om r)) -> ~ In k (keys_of (r_ps r')).
+Definition pattern_ok (r : mrow) : Prop :=
+  NoDup (keys_of (r_ps r)) /\ (forall k v, In (k, v) (r_ps r) -> pv_eq v v = true).
+Definition cand (l : list (N * gnode)) (r : mrow) : Prop :=
+  exists e, In e l /\ merge_matches (r_ls r) (r_ps r) (snd e) = true.
+
+Lemma pget_set_all_other k : forall sets p, ~ In k (keys_of sets) -> pget k (set_all p sets) = pget k p.
+Proof.
+  unfold set_all. induction sets as [|[k' v] t IH]; intros p H; cbn [fold_left]; [reflexivity|].
+  rewrite IH by (intros Hi; apply H; right; exact Hi).
+  cbn [fst snd]. rewrite pget_pset. destruct (k' =? k) eqn:E; [|reflexivity].
+  apply N.eqb_eq in E. subst. exfalso. apply H. left; reflexivity.
+Qed.
+Lemma forallb_ext_in {A} (f g : A -> bool) l : (forall x, In x l -> f x = g x) -> forallb f l = forallb g l.
+Proof.
+  induction l as [|x t IH]; intros H; cbn [forallb]; [reflexivity|].
+  rewrite (H x (or_introl eq_refl)), IH; [reflexivity|]. intros y Hy. apply H. right; exact Hy.
+Qed.
+Lemma matches_set_all ls ps lbl p sets :
+  (forall k, In k (keys_of sets) -> ~ In k (keys_of ps)) ->
+  merge_matches ls ps (mkG lbl (set_all p sets)) = merge_matches ls ps (mkG lbl p).
+Proof.
+  intros D. unfold merge_matches. cbn [g_labels g_props]. f_equal.
+  apply forallb_ext_in. intros [k v] Hin. cbn [fst snd].
+  rewrite pget_set_all_other; [reflexivity|].
+  intros Hk. apply (D k Hk). apply in_map_iff. exists (k, v). split; [reflexivity|exact Hin].
+Qed.
+
+Lemma merge_row_on rows g c r :
+  In r rows -> on_items_disjoint rows -> pattern_ok r ->
+  let res := merge_node_row (g, c) r in
+  (forall r', In r' rows -> cand (gn g) r' -> cand (gn (fst res)) r') /\
+  cand (gn (fst res)) r /\
+  gr (fst res) = gr g /\
+  (cand (gn g) r -> length (gn (fst res)) = length (gn g) /\ gnext (fst res) = gnext g /\ snd res = c).
+Proof.
+  destruct r as [[[ls ps] oc] om]. intros Hr D (ND & Hrefl). unfold r_ps in ND, Hrefl. cbn [fst snd] in ND, Hrefl.
+  unfold merge_node_row. cbn [fst snd].
+  destruct (filter (fun e => merge_matches ls ps (snd e)) (gn g)) as [|c0 ct] eqn:F.
+  - (* create *)
+    cbn [fst snd gn gr gnext].
+    set (new := (gnext g, mkG (fold_left (fun acc l => add_label l acc) ls []) (set_all ps oc))).
+    assert (Hm : merge_matches ls ps (snd new) = true).
+    { unfold new. cbn [snd]. rewrite matches_set_all.
+      - unfold merge_matches. cbn [g_labels g_props]. rewrite fold_labels_all. cbn [andb].
+        apply forallb_forall. intros [k v] Hin. cbn [fst snd]. rewrite (pget_self k v ps ND Hin). apply (Hrefl k v Hin).
+      - intros k Hk. apply (D _ _ Hr Hr). unfold r_oc, r_om. cbn [fst snd]. apply in_or_app. left; exact Hk. }
+    split; [|split; [|split; [reflexivity|]]].
+    + intros r' _ (e & Hi & He). exists e. split; [apply in_or_app; left; exact Hi|exact He].
+    + exists new. split; [apply in_or_app; right; left; reflexivity|exact Hm].
+    + intros (e & Hi & He). exfalso. apply (filter_nonempty _ _ e Hi He F).
+  - (* matched: ON MATCH items on the matched nodes *)
+    cbn [fst snd gn gr gnext].
+    set (Fm := fun e : N * gnode => if merge_matches ls ps (snd e)
+                                    then (fst e, mkG (g_labels (snd e)) (set_all (g_props (snd e)) om)) else e).
+    assert (Hpres : forall r' e, In r' rows -> merge_matches (r_ls r') (r_ps r') (snd e) = true ->
+                      merge_matches (r_ls r') (r_ps r') (snd (Fm e)) = true).
+    { intros r' [i [lb p]] Hr' He. unfold Fm. cbn [snd fst g_labels g_props] in *.
+      destruct (merge_matches ls ps (mkG lb p)); [|exact He]. cbn [snd].
+      rewrite matches_set_all; [exact He|].
+      intros k Hk. apply (D _ _ Hr Hr'). unfold r_oc, r_om. cbn [fst snd]. apply in_or_app. right; exact Hk. }
+    split; [|split; [|split; [reflexivity|]]].
+    + intros r' Hr' (e & Hi & He). exists (Fm e). split; [apply in_map; exact Hi|apply Hpres; assumption].
+    + assert (Hc0 : In c0 (filter (fun e => merge_matches ls ps (snd e)) (gn g))) by (rewrite F; left; reflexivity).
+      apply filter_In in Hc0. destruct Hc0 as [Hi He].
+      exists (Fm c0). split; [apply in_map; exact Hi|]. apply (Hpres _ c0 Hr). exact He.
+    + intros _. repeat split. apply map_length.
+Qed.
+
+Lemma merge_rows_on rows : forall todo g c,
+  (forall r, In r todo -> In r rows) -> on_items_disjoint rows -> (forall r, In r todo -> pattern_ok r) ->
+  let res := fold_left merge_node_row todo (g, c) in
+  (forall r', In r' rows -> cand (gn g) r' -> cand (gn (fst res)) r') /\
+  (forall r, In r todo -> cand (gn (fst res)) r) /\
+  gr (fst res) = gr g /\
+  ((forall r, In r todo -> cand (gn g) r) ->
+     length (gn (fst res)) = length (gn g) /\ gnext (fst res) = gnext g /\ snd res = c).
+Proof.
+  induction todo as [|r t IH]; intros g c Hsub D HP; cbn [fold_left].
+  - repeat split; auto. intros r [].
+  - assert (Hr : In r rows) by (apply Hsub; left; reflexivity).
+    destruct (merge_row_on rows g c r Hr D (HP r (or_introl eq_refl))) as (P1 & C1 & R1 & K1).
+    destruct (merge_node_row (g, c) r) as [g1 c1] eqn:M. cbn [fst snd] in *.
+    destruct (IH g1 c1 (fun x Hx => Hsub x (or_intror Hx)) D (fun x Hx => HP x (or_intror Hx))) as (P2 & C2 & R2 & K2).
+    repeat split.
+    + intros r' Hr' Hc. apply P2; [exact Hr'|]. apply P1; assumption.
+    + intros x [<-|Hx]; [apply P2; [exact Hr|exact C1]|apply C2; exact Hx].
+    + rewrite R2, R1. reflexivity.
+    + destruct (K1 (H r (or_introl eq_refl))) as (L1 & X1 & Q1).
+      assert (Ht : forall x, In x t -> cand (gn g1) x).
+      { intros x Hx. apply P1; [apply Hsub; right; exact Hx|apply H; right; exact Hx]. }
+      destruct (K2 Ht) as (L2 & X2 & Q2). rewrite L2, L1. reflexivity.
+    + destruct (K1 (H r (or_introl eq_refl))) as (L1 & X1 & Q1).
+      assert (Ht : forall x, In x t -> cand (gn g1) x).
+      { intros x Hx. apply P1; [apply Hsub; right; exact Hx|apply H; right; exact Hx]. }
+      destruct (K2 Ht) as (L2 & X2 & Q2). rewrite X2, X1. reflexivity.
+    + destruct (K1 (H r (or_introl eq_refl))) as (L1 & X1 & Q1).
+      assert (Ht : forall x, In x t -> cand (gn g1) x).
+      { intros x Hx. apply P1; [apply Hsub; right; exact Hx|apply H; right; exact Hx]. }
+      destruct (K2 Ht) as (L2 & X2 & Q2). rewrite Q2, Q1. reflexivity.
+Qed.
+
+(* a MERGE statement with ON CREATE / ON MATCH items, run twice: the second run creates nothing *)
+Theorem merge_on_creates_nothing_twice g rows :
+  on_items_disjoint rows -> (forall r, In r rows -> pattern_ok r) ->
+  match exec g (UMergeNode rows) with
+  | Done g1 _ =>
+      match exec g1 (UMergeNode rows) with
+      | Done g2 c2 => c2 = 0 /\ length (gn g2) = length (gn g1) /\ gr g2 = gr g1 /\ gnext g2 = gnext g1
+      | Failed => False
+      end
+  | Failed => False
+  end.
+Proof.
+  intros D HP. cbn [exec exec1 done].
+  destruct (merge_rows_on rows rows g 0 (fun r H => H) D HP) as (_ & C1 & _ & _).
+  set (g1 := fst (fold_left merge_node_row rows (g, 0))) in *.
+  destruct (merge_rows_on rows rows g1 0 (fun r H => H) D HP) as (_ & _ & R2 & K2).
+  destruct (K2 C1) as (L2 & X2 & Q2). repeat split; assumption.
+Qed.
+
+(* ---------- chained clauses (one statement, execute_mixed) ---------- *)
+Lemma nmap_nmap id f1 f2 : forall l, nmap id f2 (nmap id f1 l) = nmap id (fun n => f2 (f1 n)) l.
+Proof.
+  induction l as [|[i n] t IH]; cbn [nmap]; [reflexivity|].
+  destruct (i =? id) eqn:E; cbn [nmap]; rewrite E; [reflexivity|]. rewrite IH. reflexivity.
+Qed.
+Lemma nmap_ext id f g : (forall n, f n = g n) -> forall l, nmap id f l = nmap id g l.
+Proof.
+  intros H. induction l as [|[i n] t IH]; cbn [nmap]; [reflexivity|].
+  destruct (i =? id); [rewrite H; reflexivity|rewrite IH; reflexivity].
+Qed.
+
+(* `SET n.k = v REMOVE n.k` in one statement leaves the graph that `REMOVE n.k` alone leaves *)
+Theorem chain_set_then_remove g id k v :
+  match exec g (UChain [USetProp [(id, k, v)]; URemoveProp [(id, k)]]), exec g (URemoveProp [(id, k)]) with
+  | Done g1 _, Done g2 _ => g1 = g2
+  | _, _ => False
+  end.
+Proof.
+  cbn [exec exec_chain exec1 done fold_left set_prop_row remove_prop_row fst snd].
+  destruct v; cbn [fst snd]; unfold nupd; cbn [gn gr gnext gcat]; f_equal; rewrite nmap_nmap; apply nmap_ext;
+    intros n; cbn [g_labels g_props]; f_equal; try apply pdel_idem; apply (set_then_remove k _ (g_props n)).
+Qed.
